@@ -151,9 +151,10 @@ class App(Term):
 class Opaque(Term):
     """A value the analysis does not interpret; carries the symbols it depends on."""
 
-    def __init__(self, tag, deps=()):
+    def __init__(self, tag, deps=(), is_str=False):
         self.tag = tag
         self.deps = frozenset(deps)
+        self.is_str = is_str
 
     def _sortkey(self):
         return "O[%s|%s]" % (self.tag, ",".join(sorted(self.deps)))
@@ -275,6 +276,10 @@ def kind_of_const(v):
     if isinstance(v, int) and not isinstance(v, bool):
         return "int"
     return None
+
+
+def kind_of_value(v):
+    return kind_of_const(v)
 
 
 # ---------------------------------------------------------------------------------------------
@@ -414,15 +419,20 @@ class Folder(object):
         table = {}
         for r in rows:
             vals = []
+            partial = False
             for a, ix in zip(args, idxs):
                 if ix is None:
                     vals.append(a.v)
                 else:
                     key = tuple(r[i] for i in ix)
                     if key not in a.table:
-                        raise KeyError("row %r outside the table of %r" % (key, a))
+                        # the operand was computed under a narrower path condition: this row is
+                        # unreachable for it, the result is undefined there as well
+                        partial = True
+                        break
                     vals.append(a.table[key])
-            table[r] = fn(*vals)
+            if not partial:
+                table[r] = fn(*vals)
         return self.simplify(Fin(slots, table))
 
     def simplify(self, f):
